@@ -557,6 +557,26 @@ func (o *oracleCtx) c02() {
 					o.fail("C02", vn+":init-codec", "stream %d: the init segment declares a %T for a track of kind %d", si, init.Tracks[0].Codec, t.Kind)
 					continue
 				}
+				// the same question for a reader scheduled right after the rotation released the mutex (the init
+				// must already be the new one there: the playlist it reads lists the segment)
+				for _, wo := range rot.window {
+					if wo.si != si || !isVideoKind(t.Kind) || !rot.segRotated || pending {
+						continue
+					}
+					var wi fmp4.Init
+					if err := wi.Unmarshal(bytes.NewReader(wo.init)); err != nil || len(wi.Tracks) != 1 {
+						o.fail("C02", vn+":init-undecodable:in-rotation-window", "stream %d: the init segment served right after the rotation does not decode", si)
+						continue
+					}
+					wc, _ := initCarries(h, t.Kind, wi.Tracks[0].Codec, cur[si])
+					startsForced := false
+					if sg, ok := lastSegAt[ri]; ok {
+						startsForced = bp.forced[segFirstID[sg]]
+					}
+					if !wc && startsForced && len(wo.pm.segs) == len(pm.segs) && wo.pm.msn == pm.msn {
+						o.fail("C02", vn+":init-stale-parameters:in-rotation-window", "stream %d: right after the rotation of write %d released the mutex the playlist lists the complete segment with changed parameters, but the init segment served does not carry the current parameters (id %d)", si, rot.k, cur[si])
+					}
+				}
 				if isVideoKind(t.Kind) && rot.segRotated && !pending {
 					// the newest listed segment: was it encoded with parameters that differ from the init's?
 					if !carries {
@@ -1077,7 +1097,7 @@ func (o *oracleCtx) c16() {
 			// without timing information determine none; H264 was not checked before and stays so)
 			if h.Tracks[lead].Kind != kH264 && p.frameRate != "" {
 				got, err := strconv.ParseFloat(p.frameRate, 64)
-				if err != nil || wantFPS == 0 || got-wantFPS > 0.0015 || wantFPS-got > 0.0015 {
+				if err != nil || wantFPS == 0 || got-wantFPS > 0.0005000001 || wantFPS-got > 0.0005000001 {
 					o.fail("C16", vn+":frame-rate", "FRAME-RATE %q, the current parameters (kind %d, id %d) give %v", p.frameRate, h.Tracks[lead].Kind, cur[lead], wantFPS)
 				}
 			}
@@ -1240,6 +1260,9 @@ func (o *oracleCtx) c18Retention() {
 	if len(h.Faults) > 0 {
 		vn += ":storage-faults"
 	}
+	if len(h.WriteFaults) > 0 {
+		vn += ":write-faults"
+	}
 	for _, rot := range r.rotations {
 		for si, pm := range rot.playlists {
 			if pm != nil && pm.err == "" && len(pm.segs) > effSegCount(h) {
@@ -1354,6 +1377,11 @@ func runOracles(h *history, r *runResult) []failure {
 	if r.startErr {
 		// Start must reject exactly: no tracks, two videos, MPEG-TS restrictions, two default audios, too few segments
 		return nil
+	}
+	if len(h.WriteFaults) > 0 {
+		// a disk that is full now and then: only the retention oracle (segments, Directory, URL table stay bounded)
+		o.c18Retention()
+		return o.fails
 	}
 	if len(h.Faults) > 0 {
 		// the oracles that read nothing but playlists and snapshots: retention (C18) and the playlist
